@@ -379,7 +379,10 @@ def r3_squares(ctx):
             # file counter is the local updated by digits; rank index is the closure's enumerate index
             rank_ok = any(x == ("f", ("param", 2), "0") for x in leaves(a1))
             ok = rank_ok and a0[0] == "local"
-    ctx.ob(rid, "reader|(file, rank)-order", ok, "" if ok else "the placement reader does not call square_mask_from_index(file counter, rank index)", ctx.where(rd))
+    if not any(b_["term"]["k"] == "call" and b_["term"]["callee"].get("key") == B + "constants::square_mask_from_index" for b_ in rd["blocks"]):
+        ctx.lost(rid, "the placement reader's call of square_mask_from_index")
+    else:
+        ctx.ob(rid, "reader|(file, rank)-order", ok, "" if ok else "the placement reader does not call square_mask_from_index(file counter, rank index)", ctx.where(rd))
     sm = ctx.fn(rid, B + "constants::square_shift_from_index")
     try:
         t = returning_paths(sm)[0].ret()
@@ -534,7 +537,12 @@ def r5_rejections(ctx):
         if t["k"] == "call" and (t["callee"].get("key") or "").endswith("Iterator::map"):
             closure_args += [show(exg.operand(a)) for a in t["args"]]
     ok = any(c.endswith("str::<str>::split") for c in calls) and any("validate_rank" in a for a in closure_args) and any(c.endswith("Iterator::find") for c in calls)
-    ctx.ob(rid, "validate_ranks|every-rank", ok, "" if ok else "validate_ranks is no longer split('/').map(validate_rank).find(is_err): calls %s" % [c.rsplit("::", 1)[-1] for c in calls], ctx.where(g))
+    mentions_rank = any("validate_rank" in c for c in calls) or any("validate_rank" in show(exg.operand(a)) for b_ in g["blocks"] if b_["term"]["k"] == "call" for a in b_["term"]["args"])
+    if not ok and mentions_rank and any(c.endswith("str::<str>::split") for c in calls):
+        # every rank is still handed to validate_rank, through another adaptor (try_for_each, all, a loop)
+        ctx.lost(rid, "validate_ranks: how the per-rank results are combined (calls %s)" % [c.rsplit("::", 1)[-1] for c in calls][:8])
+    else:
+        ctx.ob(rid, "validate_ranks|every-rank", ok, "" if ok else "validate_ranks is no longer split('/').map(validate_rank).find(is_err): calls %s" % [c.rsplit("::", 1)[-1] for c in calls], ctx.where(g))
     h = ctx.fn(rid, "inkayaku_core::fen::<Fen as FromStr>::from_str")
     hc = Cfg(h)
     vcalls = [b for b in sorted(hc.reach) if h["blocks"][b]["term"]["k"] == "call" and (h["blocks"][b]["term"]["callee"].get("key") or "").endswith("Fen::validate_ranks")]
